@@ -604,4 +604,102 @@ theorem setValue_ref_single (d : Doc) (p k : Text) (v : Node) (rid : Nat) (nm : 
   obtain ⟨sid, hs⟩ := setSid_of_setValues_ne d.target (findBinding_some_ne hb)
   rw [setValue_plain p v d hnt hsp, setValueInAttrset_single d.target true p v k sid hf hs hr, hb]
 
+/-! ## 7. unbound names, environments as prefixes of larger ones -/
+
+theorem lookupEnv_append {name : Text} {extra : List (List Node)} :
+    ∀ {env : List (List Node)} {b : Node} {env' : List (List Node)},
+      lookupEnv name env = some (b, env') → lookupEnv name (env ++ extra) = some (b, env' ++ extra)
+  | [], _, _, h => by simp [lookupEnv] at h
+  | f :: outer, b, env', h => by
+    simp only [lookupEnv, List.cons_append] at h ⊢
+    cases hf : f.find? (bindsName name) with
+    | some b' =>
+      simp only [hf, Option.some.injEq, Prod.mk.injEq] at h ⊢
+      obtain ⟨rfl, rfl⟩ := h
+      exact ⟨rfl, rfl⟩
+    | none =>
+      simp only [hf] at h ⊢
+      exact lookupEnv_append h
+
+theorem scanChain_none_of_notBound {env0 : List (List Node)} (hwf : EnvWF env0) {name : Text}
+    (hname : nixName name = name) :
+    ∀ {env : List (List Node)}, (∀ f ∈ env, f ∈ env0) → NotBound env name → scanChain name env = none
+  | [], _, _ => rfl
+  | scope :: outer, hsub, hnb => by
+    rw [scanChain_cons, scanHit_eq (hwf.quote scope (hsub scope (by simp)))
+      (hwf.names scope (hsub scope (by simp))) hname, hnb scope (by simp)]
+    simp only
+    split
+    · rfl
+    · exact scanChain_none_of_notBound hwf hname (fun f hf => hsub f (by simp [hf]))
+        (fun f hf => hnb f (by simp [hf]))
+
+theorem resolveIdent_none_of_notBound (fuel : Nat) (env : List (List Node)) (name : Text)
+    (vis : List Nat) (hok : envOK env = true) (hname : nixName name = name)
+    (hnb : NotBound env name) : resolveIdent fuel env name vis = none := by
+  cases fuel with
+  | zero => rfl
+  | succ fuel =>
+    simp [resolveIdent, scanChain_none_of_notBound (EnvWF.of_envOK hok) hname (fun _ h => h) hnb]
+
+theorem find_named_none_of_notBound {frame : List Node} {name : Text} (hname : nixName name = name)
+    (h : frame.find? (bindsName name) = none) :
+    (frame.filter (·.isBind)).find? (·.bindName? == some name) = none := by
+  rw [List.find?_eq_none] at h ⊢
+  intro x hx
+  have hx' := (List.mem_filter.1 hx).1
+  have := h x hx'
+  cases x <;> simp [bindName?, bindsName] at this ⊢
+  intro e; subst e; exact this hname
+
+theorem findBinding_none_of_notBound {frame : List Node} {name : Text} (hname : nixName name = name)
+    (h : frame.find? (bindsName name) = none) : findBinding frame name = none := by
+  unfold findBinding
+  rw [List.find?_eq_none] at h ⊢
+  intro x hx
+  have := h x hx
+  cases x <;> simp [isBind, bindName?, bindsName] at this ⊢
+  intro e; subst e; exact this hname
+
+theorem scope_mem_chainEnv (d : Doc) (ts : Node) (h : d.scope ≠ []) :
+    d.scope ∈ chainEnv d ts true := by
+  have : d.scope.isEmpty = false := by cases hs : d.scope <;> simp_all
+  simp [chainEnv, scopeChain, this]
+
+theorem letBindings_none_of_notBound (d : Doc) (name : Text) (hname : nixName name = name)
+    (hnb : NotBound (docEnv d) name) :
+    (letBindings d).find? (·.bindName? == some name) = none := by
+  unfold letBindings
+  cases ht : d.topScope with
+  | some s =>
+    exact find_named_none_of_notBound hname (hnb s (by simp [docEnv, ht]))
+  | none =>
+    by_cases hs : d.scope = []
+    · simp [hs]
+    · exact find_named_none_of_notBound hname
+        (hnb d.scope (by simp only [docEnv, List.mem_append]; exact Or.inl (scope_mem_chainEnv d _ hs)))
+
+theorem envOK_append_left {a b : List (List Node)} (h : envOK (a ++ b) = true) : envOK a = true := by
+  simp only [envOK, List.all_append, Bool.and_eq_true] at h; exact h.1
+
+theorem inheritFree_append_left {a b : List (List Node)} {name : Text}
+    (h : inheritFree (a ++ b) name = true) : inheritFree a name = true := by
+  simp only [inheritFree, inheritClear, List.all_append, Bool.and_eq_true, List.all_eq_true] at h ⊢
+  refine ⟨h.1.1, fun f hf n hn => ?_⟩
+  have := h.2.1 f hf n hn
+  cases n with
+  | bind i nm ne v bf af =>
+    cases v with
+    | ident n' =>
+      simp only [Bool.and_eq_true, List.all_eq_true] at this ⊢
+      exact this.1
+    | _ => rfl
+  | _ => rfl
+
+theorem idsNodup_append_left {a b : List (List Node)} (h : idsNodup (a ++ b) = true) :
+    idsNodup a = true := by
+  rw [idsNodup_iff] at h ⊢
+  simp only [envIds, List.flatten_append, List.filterMap_append] at h
+  exact (List.nodup_append.1 h).1
+
 end Nima
